@@ -3,3 +3,4 @@ pub mod dsets;
 pub mod dsyms;
 pub mod covers;
 pub mod groups;
+pub mod dsym3;
